@@ -1,0 +1,36 @@
+//go:build verif
+
+package scheduler
+
+import (
+	beacon "github.com/oasisprotocol/oasis-core/go/beacon/api"
+	"github.com/oasisprotocol/oasis-core/go/common"
+	"github.com/oasisprotocol/oasis-core/go/common/crypto/signature"
+	"github.com/oasisprotocol/oasis-core/go/common/crypto/tuplehash"
+	scheduler "github.com/oasisprotocol/oasis-core/go/scheduler/api"
+)
+
+// Verification hooks (build tag "verif" only): the hashed VRF betas the
+// sortition orders nodes by, computed with the real hashers. No behaviour
+// change.
+
+// VerifValidatorBeta is the hashed beta of a proof in the validator election context.
+func VerifValidatorBeta(chainContext []byte, epoch beacon.EpochTime, pi *signature.Proof) [32]byte {
+	return [32]byte(hashBeta(func() *tuplehash.Hasher {
+		return newBetaHasher([]byte("oasis-core:vrf/validator"), chainContext, epoch)
+	}, pi.UnsafeToHash()))
+}
+
+// VerifCommitteeBeta is the hashed beta of a proof in the committee election context.
+func VerifCommitteeBeta(chainContext []byte, epoch beacon.EpochTime, rtID common.Namespace, kind scheduler.CommitteeKind, role scheduler.Role, pi *signature.Proof) [32]byte {
+	return [32]byte(hashBeta(func() *tuplehash.Hasher {
+		return newCommitteeBetaHasher(chainContext, epoch, rtID, kind, role)
+	}, pi.UnsafeToHash()))
+}
+
+// VerifDedupBeta is the hashed beta of a proof in the per-entity de-duplication context.
+func VerifDedupBeta(chainContext []byte, epoch beacon.EpochTime, rtID common.Namespace, kind scheduler.CommitteeKind, role scheduler.Role, pi *signature.Proof) [32]byte {
+	return [32]byte(hashBeta(func() *tuplehash.Hasher {
+		return newCommitteeDedupBetaHasher(chainContext, epoch, rtID, kind, role)
+	}, pi.UnsafeToHash()))
+}
